@@ -31,6 +31,7 @@ def _copy_repo(dst):
 def run_check(pid, repo, out):
     env = dict(os.environ)
     env['TENPY_VERIF_REPO'] = repo
+    env['TENPY_VERIF_NO_SENSITIVITY'] = '1'
     env['TENPY_VERIF_OUT'] = out
     p = subprocess.run([sys.executable, '-B', os.path.join(VERIF, 'sa', 'main.py'), pid],
                        capture_output=True, text=True, env=env)
